@@ -169,23 +169,25 @@ def run(ck):
         da, db = rng.choice(small), rng.choice(small)
         s1, s2 = rng.choice(scales), rng.choice(scales)
         a, b = im.mkph(s1, da), im.mkph(s2, db)
+
+        def unchanged(after):
+            # none of these operations mutates its operands (scale included); asked right after each operation
+            oracle((F(a.scale), fd(a)) == (s1, {k: v for k, v in da.items() if v != 0}) and (F(b.scale), fd(b)) == (s2, {k: v for k, v in db.items() if v != 0}),
+                   "mutation-parserhelper", f"ParserHelper operand changed by {after}: a is now ({a.scale}, {fd(a)}), b is now ({b.scale}, {fd(b)})",
+                   {"a": [str(s1), str(da)], "b": [str(s2), str(db)], "after": after})
         m = a * b
+        unchanged("a * b")
         add_case(f"KPhMul {coq_ph(s1, da)} {coq_ph(s2, db)} {coq_ph(F(m.scale), fd(m))}", {"op": "phmul", "a": [str(s1), str(da)], "b": [str(s2), str(db)]}, ("phmul", str(s1), str(da), str(s2), str(db)))
         try:
             d = a / b
             dd = coq_ph(F(d.scale), fd(d))
         except ZeroDivisionError:
             dd = None
+        unchanged("a / b")
         add_case(f"KPhDiv {coq_ph(s1, da)} {coq_ph(s2, db)} {coq_opt(dd)}", {"op": "phdiv", "a": [str(s1), str(da)], "b": [str(s2), str(db)]}, ("phdiv", str(s1), str(da), str(s2), str(db)))
         oracle(all(x != 0 for x in m._d.values()), "zero-entry", "zero exponent survives ParserHelper *", {"a": str(da), "b": str(db)})
         p0 = a ** 0
         oracle(len(p0._d) == 0, "pow-zero", "ParserHelper ** 0 keeps entries", {"a": str(da)})
-        # none of these operations mutates its operands (scale included), nor returns one of them as the result
-        oracle((F(a.scale), fd(a)) == (s1, {k: v for k, v in da.items() if v != 0}) and (F(b.scale), fd(b)) == (s2, {k: v for k, v in db.items() if v != 0}),
-               "mutation-parserhelper", f"ParserHelper operand changed by * / ** : a is now ({a.scale}, {fd(a)}), b is now ({b.scale}, {fd(b)})",
-               {"a": [str(s1), str(da)], "b": [str(s2), str(db)]})
-        oracle(m is not a and m is not b, "alias-parserhelper", "ParserHelper a * b returned one of its operands",
-               {"a": [str(s1), str(da)], "b": [str(s2), str(db)]})
         ck.count("parserhelper")
 
     # ---------------------------------------------------------------- Unit / Quantity layers on a real registry
